@@ -461,7 +461,9 @@ def explore(unit_fn, make_ctx, max_paths=4000):
             ctx.outcome = 'infeasible'
         done.append(ctx)
         if len(done) > max_paths:
-            raise PathLimit(f'more than {max_paths} paths')
+            e = PathLimit(f'more than {max_paths} paths')
+            e.done = done        # what was explored is still sound: a clause refuted on a feasible path stays refuted
+            raise e
         # flip the last non-exhausted decision
         trace = trace[: ctx.pos] if ctx.pos <= len(trace) else trace
         while trace:
